@@ -17,8 +17,8 @@ RT(emitDevs) ==
 RoundTrip == done \/ RT({})
 
 (* ---- EMPTY PARTS: calls, argument references and links whose arguments are all / partly    *)
-(* empty, alone / in running text / in a table cell.  One state, two invariants              *)
-(* (MC_Unparse_E.cfg):                                                                        *)
+(* empty, alone / in running text / in a table cell.  Invariant EmptyParts, evaluated in ONE  *)
+(* state of a run (MC_Unparse_Q/T.cfg; alone: MC_Unparse_E.cfg):                              *)
 (*   EmptyPartsRoundTrip  the ideal emitter round-trips every such page through the ideal     *)
 (*                        parser (an empty argument stays an empty argument, the node kind    *)
 (*                        stays what it was);                                                 *)
@@ -40,17 +40,20 @@ RTText(text, emitDevs) ==
       t2 == MachineTree(Unparse(t1, emitDevs), {})
       t3 == MachineTree(Unparse(t2, emitDevs), {})
   IN Equiv(t2, t1) /\ Equiv(t3, t2)
-EmptyPartsRoundTrip ==
+\* (dummy parameter: TLC evaluates every parameterless constant definition at start-up)
+EmptyPartsRoundTrip(z) ==
   \A pg \in EmptyPages :
      \/ Equiv(MachineTree(Render(pg), {}), TreeOf(pg)) /\ RTText(Render(pg), {})
      \/ ~PrintT(<<"EMPTYFAIL", ToJson([text |-> Render(pg)])>>)
-WhatIfsBreak ==
+WhatIfsBreak(z) ==
   \A d \in WhatIfEmptyArgDevs :
      LET W0 == {pg \in EmptyPages : ~RTText(Render(pg), {d})} IN
      /\ W0 # {}
      /\ LET pg == CHOOSE q \in W0 : \A r \in W0 : Len(Render(q)) <= Len(Render(r))
         IN PrintT(<<"WHATIF", ToJson([dev |-> d, pages |-> Cardinality(W0), text |-> Render(pg),
                                       emitted |-> Unparse(MachineTree(Render(pg), {}), {d})])>>)
+FirstPage == CHOOSE p \in Pages : TRUE
+EmptyParts == (done /\ page \in {FirstPage, <<>>}) => (EmptyPartsRoundTrip(0) /\ WhatIfsBreak(0))
 InitE == page = <<>> /\ done = TRUE
 SpecE == InitE /\ [][Next]_<<page, done>>
 RoundTripAsIs == done \/ RT(AllUnparseDevs)
